@@ -643,14 +643,15 @@ def fresh_suites(ctx, entries):
     return [(n, a, res["driver"]) for n, a in entries]
 
 
-def boundary_suites(ctx, seed, n):
+def boundary_suites(ctx, seed, n, kinds=("msg",), only=None):
     """Schemas just outside the documented feature set, which the pinned generator rejects (so they contribute nothing on the
     unchanged tree). When a changed generator accepts one, its output is held to the same properties as everything else."""
     bnd = {k: v[1]() for k, v in F.BOUNDARY.items()}
     bres = F.cached_build(bnd, "fresh-boundary")
     if not bres.get("driver"):
         return []
-    return [("msg", ["msg", seed, n, k + ".proto:"], bres["driver"]) for k, v in sorted(bres["results"].items()) if v == "ok"]
+    return [(kind, [kind, seed, n, k + ".proto:"], bres["driver"]) for k, v in sorted(bres["results"].items()) if v == "ok" and (only is None or k in only)
+            for kind in kinds]
 
 
 def check_C01(ctx):
@@ -744,7 +745,8 @@ def check_C11(ctx):
         theorems=["C11_entry", "C11_map_round_trip"],
         suites=lambda c: [("msg", ["msg", c.seed, _n(c, 1000, 30000), "Map"]), ("decv", ["decv", c.seed, _n(c, 1000, 30000), "Map"]), ("hist", ["hist", c.seed + 1, _n(c, 500, 5000), "Map"])] +
                          fresh_suites(c, [("msg", ["msg", c.seed + 2, _n(c, 800, 20000), "allmaps"]), ("decv", ["decv", c.seed + 2, _n(c, 800, 20000), "allmaps"]),
-                                          ("hist", ["hist", c.seed + 2, _n(c, 300, 5000), "allmaps"])]),
+                                          ("hist", ["hist", c.seed + 2, _n(c, 300, 5000), "allmaps"])]) +
+                         boundary_suites(c, c.seed + 3, 600, kinds=("msg", "decv"), only=("bcapmap",)),
         filter=lambda r: "Map" in r.get("key", "") or "allmaps" in r.get("key", ""),
         prop={"msg": lambda r: r["impl"] != "PANIC" and r["flags"].get("c01") == "ok" and r["flags"].get("c03") == "ok",
               "dec": lambda r: r["ist"] == "ok" and r["flags"].get("c02") == "ok",
